@@ -42,6 +42,24 @@ class Seams:
         self.saved = []
 
 
+def own_clocks(sm, clock, timer=None):
+    """Every wall-clock and timer reference any loaded mako module holds is put behind the harness: a module
+    global `time` that is the time module answers time() from the simulated whole-second clock, a module global
+    `timeit` answers default_timer() from the logical timer.  (Clocks the tree does not use today are owned as
+    well, so that a change of clock source is still observed on the simulated clock.)"""
+    import sys
+    import time as _time
+    import timeit as _timeit
+
+    for name, mod in sorted(sys.modules.items()):
+        if mod is None or not (name == "mako" or name.startswith("mako.")):
+            continue
+        if mod.__dict__.get("time") is _time:
+            sm.set(mod, "time", Forward(_time, {"time": clock.time}))
+        if timer is not None and mod.__dict__.get("timeit") is _timeit:
+            sm.set(mod, "timeit", Forward(_timeit, {"default_timer": timer.default_timer}))
+
+
 class Forward:
     """Forwarding proxy for a module: attribute access falls through to the real
     module unless overridden; nested `path` is proxied the same way."""
